@@ -241,6 +241,14 @@ func runC18(r *simkit.Run) {
 		verifhook.Order = nil
 		r.Eventf("%s %s body=%t -> %v", method, target, body != "", codes)
 		issued = append(issued, issuedReq{method, target, body, codes[0]})
+		if q := strings.Index(target, "?"); q >= 0 {
+			// neither the router nor the operation lookup may depend on the query component: the
+			// same request without it gets the same answer (read-only operations stay reachable)
+			if plain := do(method, target[:q], body); plain != codes[0] && plain != -1 && codes[0] != -1 {
+				r.Fail("decision-depends-on-query-string", "status", "%s %s answered %d, the same request without the query component %d", method, target, codes[0], plain)
+			}
+			r.Probe("query-string-differential")
+		}
 		if dbsrv != nil {
 			if h := dbsrv.Hash(); h != dbHash {
 				r.Fail("http-request-changed-the-database", "db", "%s %s (body=%t, write enabled=%t) changed the keyper database", method, target, body != "", write)
